@@ -11,9 +11,10 @@ import time
 
 VERIF = os.path.dirname(os.path.dirname(os.path.abspath(__file__)))
 REPO = os.environ.get('VERIF_REPO', '/repo')
-WORK = os.path.join(VERIF, '.work')
-REPLAYS = os.path.join(VERIF, 'replays')
-EVIDENCE = os.path.join(VERIF, 'evidence')
+WORK = os.environ.get('VERIF_WORK') or os.path.join(VERIF, '.work', f'run-{os.getpid()}')
+os.environ['VERIF_WORK'] = WORK
+REPLAYS = os.environ.get('VERIF_REPLAY_DIR') or os.path.join(VERIF, 'replays')
+EVIDENCE = os.environ.get('VERIF_EVIDENCE_DIR') or os.path.join(VERIF, 'evidence')
 VENV_PY = os.path.join(VERIF, '.venv', 'bin', 'python')
 KNOWN = os.path.join(VERIF, 'known_findings.json')
 NCPU = int(os.environ.get('VERIF_JOBS', '0')) or max(2, (os.cpu_count() or 4) - 2)
